@@ -218,7 +218,21 @@ func (b *Byz) craft(m *Member, k, round uint64, phase gpbft.Phase, value *gpbft.
 		if phase == gpbft.CONVERGE_PHASE && (round == 0 || value.IsZero()) {
 			return nil
 		}
-		if round > 0 {
+		if round > 1 && b.w.c.Chance(120) {
+			// a genuine quorum from an earlier round than the previous one: not a valid
+			// justification for this round, whatever it certifies
+			stale := uint64(b.w.c.Intn(int(round - 1)))
+			if b.w.c.Chance(700) {
+				just = b.justify(k, stale, gpbft.COMMIT_PHASE, nil)
+			}
+			if just == nil && !value.IsZero() {
+				just = b.justify(k, stale, gpbft.PREPARE_PHASE, value)
+			}
+			if just != nil {
+				b.w.r.Probe("byz_stale_justification")
+			}
+		}
+		if round > 0 && just == nil {
 			if b.w.c.Chance(500) {
 				just = b.justify(k, round-1, gpbft.COMMIT_PHASE, nil)
 				if just == nil {
@@ -238,7 +252,14 @@ func (b *Byz) craft(m *Member, k, round uint64, phase gpbft.Phase, value *gpbft.
 		}
 	case gpbft.COMMIT_PHASE:
 		if !value.IsZero() {
-			just = b.justify(k, round, gpbft.PREPARE_PHASE, value)
+			if round > 0 && b.w.c.Chance(80) {
+				if just = b.justify(k, uint64(b.w.c.Intn(int(round))), gpbft.PREPARE_PHASE, value); just != nil {
+					b.w.r.Probe("byz_stale_justification")
+				}
+			}
+			if just == nil {
+				just = b.justify(k, round, gpbft.PREPARE_PHASE, value)
+			}
 			if just == nil {
 				return nil
 			}
